@@ -189,6 +189,20 @@ def run(ctx, rep):
         guards = [n for n in own_nodes(frag.node) if isinstance(n, ast.If) and unparse(n.test).replace(" ", "") == "%s.src<%s.dst" % (bname, bname)
                   and any(isinstance(x, ast.Continue) for x in n.body)]
         if not guards:
+            # ... or the skip is conditioned on the ring flag too -- `if b.ring_bond and b.src < b.dst: continue` -- and the token is
+            # made under `b.ring_bond`: with the flag known at the token, what was skipped is exactly b.src < b.dst
+            from sa.guards import guard_facts as _gf
+            from sa.discharge import noreturn_pred as _nr
+            cmp_txt, flag_txt = "%s.src<%s.dst" % (bname, bname), "%s.ring_bond" % bname
+            conj = [n for n in own_nodes(frag.node) if isinstance(n, ast.If) and any(isinstance(x, ast.Continue) for x in n.body) and not n.orelse
+                    and isinstance(n.test, ast.BoolOp) and isinstance(n.test.op, ast.And)
+                    and {unparse(v).replace(" ", "").strip("()") for v in n.test.values} == {cmp_txt, flag_txt}]
+            if conj:
+                facts = _gf(frag, _nr(ctx, frag))
+                sites2 = [node] if owner is frag else [s_.node for s_ in ctx.cg.sites(frag) if owner in s_.callees]
+                if sites2 and all(any(fc[0] == "truthy" and fc[1].replace(" ", "") == flag_txt for fc in facts.get(id(sn), frozenset())) for sn in sites2):
+                    guards = conj
+        if not guards:
             # ... or the positive spelling: the ring symbol is produced under a dominating `b.src >= b.dst` (guard facts at the
             # site that formats the token, or that calls the helper which does)
             from sa.guards import guard_facts
